@@ -12,6 +12,7 @@ from typing import (
     Union,
 )
 
+import numpy as np
 from numpy import logical_not, ndarray
 
 from mygrad._utils import WeakRefIterable
@@ -273,7 +274,9 @@ class UnView(Operation):
         # dℒ/d(base) = [0., 0., g2]
         # dℒ/d(view) = [g0, g1]
         if index == 0:  # compute dℒ/d(base)
-            grad = grad.copy()
+            # preserve the memory layout of `grad` (e.g. F-ordered) so that
+            # each view of the base has a corresponding *view* of the copy
+            grad = np.copy(grad)
             grad_view = grad
             for fn in self._view_fn_seq:
                 grad_view = fn(grad_view)
